@@ -19,6 +19,7 @@ def run(ctx, rep):
     n = e8_formulas.check_ss(facts, rep)
     rep.floor('E8.F1 ss formula sites', n, 5)
     e12_pairing.check_cycle_transport(facts, rep)
+    e12_pairing.check_canon_cycles(facts, rep)
     e9_relations.run(facts, rep, parts=('R1', 'R4', 'R6'))
     e8_formulas.check_elimination(facts, rep)
     e8_formulas.check_pivot_eligibility(facts, rep)
